@@ -444,6 +444,12 @@ func GenRecs(t *rapid.T, s Schema, maxN int, distinctTS bool) []model.Rec {
 			obj.Obj = append(obj.Obj[:at], append([]model.JField{ef}, obj.Obj[at:]...)...)
 			r.Line = genBS(obj.Render())
 			r.Doc = &model.Doc{Format: "packed", JSON: &obj}
+			if rapid.IntRange(0, 7).Draw(t, "packed-cut-after-entry") == 0 {
+				// A packed line that breaks off after its entry: unpacking fails, and a stage that
+				// fails leaves the line alone - the entry it had already read included.
+				r.Line = genBS(`{"_entry":` + (model.JV{K: "str", S: entry}).Render() + `,"k":"unterminat`)
+				r.Doc = &model.Doc{Format: "packed", JSON: &obj, Malformed: true}
+			}
 		case s.Format == "delim":
 			vals := map[string]string{}
 			for _, f := range s.Fields {
